@@ -11,7 +11,7 @@ Driver for C11.  One request per line, `k=v` fields separated by spaces:
   op=cmp   A=<val> B=<val> [ITZ=<minutes>]  answers lt,le,eq,gt,ge as 5 bits; ITZ = implicit timezone of
                                            the dynamic context; extra flag inN=1 iff inside the trigger of F11n
   op=tmk H= MI= S= US= TZ=                 xs:time constructor (time values are 2000:1:1:US:TZ)
-  op=tadd|tsub A=<time> DUR=<µs>            time ± dayTimeDuration (flag inO: trigger of F11o)
+  op=tadd|tsub A=<time> DUR=<µs>            time ± dayTimeDuration
   op=tdiff A=<time> B=<time>   op=tcmp A= B= [ITZ=]   op=tadjust A=<time> TZ=
   op=gmk K=<gYear|gYearMonth|gMonth|gMonthDay|gDay> V= Y= MO= D= TZ=
   op=adjust A=<val> TZ=<minutes|n>          adjust-dateTime-to-timezone
@@ -172,8 +172,7 @@ def answer (line : String) : String :=
       let neg := f "op" == "tsub"
       let sd := if neg then -dur else dur
       let r := (absT a).add sd
-      let inO := !(decide (TimeDomain a sd))
-      out (showR showDT (timeAddDur a dur neg)) s!"2000:1:1:{r.us}:{showTz r.tz}" (!tdOk dur) ++ s!" inO={b01 inO}"
+      out (showR showDT (timeAddDur a dur neg)) s!"2000:1:1:{r.us}:{showTz r.tz}" false
     | _, _ => "bad-args"
   | "tdiff" =>
     match getA, getB with
@@ -232,7 +231,9 @@ def answer (line : String) : String :=
     | some a =>
       let v11 := f "V" == "11"
       let sh (l : List Int) (tz : Option Int) : String := ";".intercalate (l.map toString) ++ ";" ++ showTz tz
-      out (sh (components v11 a) a.tz) (sh (EPV.Timeline.components v11 (absV a)) (absV a).tz) false
+      -- PIC=1: the components as the picture formatter of fn:format-dateTime shows them ([Z] of a value without timezone)
+      let mtz := if f "PIC" == "1" then pictureTz a.tz else a.tz
+      out (sh (components v11 a) mtz) (sh (EPV.Timeline.components v11 (absV a)) (absV a).tz) false
     | none => "bad-val"
   | "durop" =>
     match int? (f "X"), int? (f "Y"), int? (f "N"), int? (f "D") with
@@ -266,9 +267,12 @@ def answer (line : String) : String :=
     let str : List Char := cps.map Char.ofNat
     let v11 := f "V" == "11"
     let showS (l : List Char) : String := ",".intercalate (l.map fun c => toString c.toNat)
+    let gk (k : GKind) := (gOfLex k v11 str).map fun v => (v, fmtG k v11 v)
     let r := match f "K" with
       | "dateTime" => (dateTimeOfLex v11 str).map fun v => (v, fmtDateTime v11 v)
       | "date" => (dateOfLex v11 str).map fun v => (v, fmtDate v11 v)
+      | "gYear" => gk .gYear | "gYearMonth" => gk .gYearMonth | "gMonth" => gk .gMonth
+      | "gMonthDay" => gk .gMonthDay | "gDay" => gk .gDay
       | _ => (timeOfLex str).map fun v => (v, fmtTime v)
     match r with
     | .ok (v, t) => s!"model={showDT v}|{showS t} spec=- inK=0"
